@@ -67,6 +67,8 @@ def parse(raw, ns=None, enclosing="", names=None, top=True):
     if names is None:
         names = set()
     if isinstance(raw, list):
+        if any(isinstance(b, list) for b in raw):
+            raise Invalid("other", "union directly inside a union")
         return [parse(b, ns, enclosing, names, False) for b in raw]
     if isinstance(raw, str):
         if raw in PRIMITIVES:
